@@ -87,6 +87,31 @@ def folding(chk, repo, clause):
             det = f'iterates over {fmt(lp["iter"])}; shift call gets xs/ys = ' + \
                   (', '.join(fmt((e.data.get("kwargs") or {}).get(k)) for e in calls for k in ('xs', 'ys')) or '-')
     chk.ob(clause, 'D-fold', f.key, 'every recorded tilt is folded, accumulators threaded', ok, det, f.loc())
+    # ... and what the elements accumulated - angular and dispersive ones alike - is converted to samples as it is: (x, y) in
+    # metres over the pixel size of the axis it runs along, rows from -y and columns from +x; a sign folded into this step
+    # (with the opposite sign put into one kind of element) mirrors the displacement of every other kind
+    okc, detc = None, 'undecided: the accumulated (x, y) pair is not found in the result'
+    for p in rets:
+        for lp in p.state.loops:
+            if lp['func'] != f.key or not (isinstance(p.ret, Tup) and len(p.ret) == 2):
+                continue
+            calls = [e for e in p.events if e.kind == 'call' and e.data.get('callee') == 'method:shift' and e.in_loop]
+            if len(calls) != 1:
+                continue
+            kw = calls[0].data.get('kwargs') or {}
+            xa = kw.get('xs').single_atom() if isinstance(kw.get('xs'), Poly) else None
+            ya = kw.get('ys').single_atom() if isinstance(kw.get('ys'), Poly) else None
+            if xa is None or ya is None or xa[0] != 'loop' or ya[0] != 'loop':
+                continue
+            X, Y = Poly.atom(('loop', xa[1], 'out')), Poly.atom(('loop', ya[1], 'out'))
+            ps, osf = S('pixelscale'), S('oversample')
+            want = (-Y / nf.index(ps, C(0)) * osf, X / nf.index(ps, C(1)) * osf)
+            got = p.ret.items
+            if all(isinstance(g, Poly) for g in got) and {a for g in got for a in nf.value_atoms(g) if a[0] == 'loop'} == {X.single_atom(), Y.single_atom()}:
+                okc = got[0] == want[0] and got[1] == want[1]
+                detc = f'(row, col) = ({fmt(got[0])[:70]}, {fmt(got[1])[:70]}); the convention is ({fmt(want[0])}, {fmt(want[1])})'
+    chk.ob(clause, 'N-formula', f.key, 'the accumulated (x, y) becomes (row, col) = (-y/du_row, +x/du_col) * oversample, for every kind of element',
+           okc, detc, f.loc())
     # TiltInterface.multiply appends itself to every field of the new wavefront
     f, paths, _ = analyse(repo, 'plane.TiltInterface.multiply')
     ok, det = False, ''
@@ -115,16 +140,21 @@ def folding(chk, repo, clause):
     # Wavefront(tilt=[rx, ry]) wraps Tilt(x=rx, y=ry)
     f, paths, _ = analyse(repo, 'wavefront.Wavefront.__init__', config={'tilt': pair('tilt')})
     ok, det = False, ''
+    dropped = []
     for p in paths:
         ts = [e for e in p.events if e.kind == 'call' and e.data.get('new') == 'plane.Tilt']
         fs = [e for e in p.events if e.kind == 'call' and e.data.get('new') == 'field.Field']
+        if fs and not ts and p.status != 'raise':
+            # a way through the constructor on which a given [rx, ry] pair leaves no Tilt behind
+            dropped.append(conds_str(p)[:120])
         if ts and fs:
             b = ts[0].bound
             tl = fs[0].bound.get('tilt')
             ok = b.get('x') == pair('tilt').items[0] and b.get('y') == pair('tilt').items[1] and \
                 isinstance(tl, Tup) and len(tl) == 1 and tl.items[0] == ts[0].data['result']
             det = f'Tilt(x={fmt(b.get("x"))}, y={fmt(b.get("y"))}) -> Field(tilt={fmt(tl)})'
-    chk.ob(clause, 'D-fold', f.key, 'wavefront tilt [rx, ry] becomes Tilt(x=rx, y=ry) on the initial field', ok, det, f.loc())
+    chk.ob(clause, 'D-fold', f.key, 'wavefront tilt [rx, ry] becomes Tilt(x=rx, y=ry) on the initial field', ok and not dropped,
+           det if not dropped else f'a given tilt pair is dropped when {dropped[0]} (one zero angle does not make the other one vanish)', f.loc())
 
 
 def fit_tilt_rule(chk, repo, clause):
@@ -199,6 +229,26 @@ def fit_tilt_rule(chk, repo, clause):
                    f'OPD correction = einsum({fmt(spec)}, {fmt(basis)}, {fmt(coef)})', f.loc(e.node))
             chk.ob(clause, 'D-index', f.key, f'records Tilt(x=t[1], y=t[2]) of the same fit [{label}]', bool(rec),
                    f'Tilt(x={fmt(tb.get("x"))}, y={fmt(tb.get("y"))})', f.loc(t.node))
+    # the Tilt objects are recorded on the plane that is handed back - the one whose OPD lost the ramp: with inplace=False that
+    # is the copy (recording them on the original leaves it with the ramp in the OPD *and* the tilt, the copy with neither)
+    from ..nf import FALSE as _FALSE
+    for cfg, label in ((TRUE, 'inplace=True'), (_FALSE, 'inplace=False')):
+        _, pp, _ = analyse(repo, f, config={'inplace': cfg})
+        okr, detr, nr = None, 'undecided: no growth of a tilt list found', 0
+        for p in returns(pp):
+            grows = [w for w in p.events if w.kind == 'write' and w.data.get('how') in ('method:append', 'method:extend', 'augassign')
+                     and isinstance(w.target, Poly) and w.target.single_atom() is not None
+                     and w.target.single_atom()[0] == 'attr' and w.target.single_atom()[2] == 'tilt']
+            for w in grows:
+                nr += 1
+                owner = Poly.atom(w.target.single_atom()[1])
+                if owner == p.ret:
+                    okr = True if okr is None else okr
+                else:
+                    okr = False
+                    detr = f'the fitted Tilt goes to {fmt(owner)[:40]}.tilt at {w.loc()} while {fmt(p.ret)[:40]} is the plane that is returned'
+        chk.ob(clause, 'D-index', f.key, f'the removed tip/tilt is recorded on the plane that is returned [{label}]', okr,
+               detr if okr is not True else f'{nr} recording(s)', f.loc())
     if n < 2:
         raise AnalysisError(f'fit_tilt: only {n} of 2 branches recognised')
 
@@ -547,6 +597,9 @@ def run(chk, repo, tier):
     fit_tilt_rules(chk, repo, 'C04-j')
     ptt_mask_rule(chk, repo, 'C04-j')
     fit_tilt_rule(chk, repo, 'C04-f')
+    # a fit on a copy (the default) leaves the original as it was: the copy has tilt list and arrays of its own
+    from .c10 import plane_copy_rules as _plane_copy_rules
+    _plane_copy_rules(chk, repo, 'C04-f')
     common.tilt_slot_agreement(chk, repo, 'C04-g')
     dispersion_rule(chk, repo, 'C04-h')
     basis_rule(chk, repo, 'C04-i')
